@@ -33,6 +33,66 @@ CHECKS["C05"] = dict(engine="E3-bounded-exhaustive",
    note="Trusted: PlushyRef (explicit stack of open blocks); instruction identity is irrelevant beyond its number of opens.",
    design="4/C05")
 
+def mc(engine, technique, text, note, design):
+    return dict(engine=engine, technique=technique, text=text, note=note, design=design)
+
+CHECKS["C06"] = mc("E1-choice-tree",
+  "stateless model checking over the environment: exhaustive DFS over every word the supplied RNG can hand out (finite exact alphabet), real selectors executed on every sequence, membership/error oracle per leaf",
+  "Every selector configuration (Best, Worst, Random, Tournament 1..n+1, Lexicase with 0..3 cases on 2 available results, lone Weighted, WeightedPair nestings of 2..4 real selectors, DynWeighted lists; direct, behind &, through Select, type-erased) x every population of size 0..3 (thorough 0..4) over 3 values x every word sequence of a mixed Grid(12)+Rep(12!,24) alphabet: the result must be pointer-identical to an element of the population passed, or one of the errors the configuration documents; never a panic.",
+  "Trusted: the mixed alphabet reaches every decision of rand's range draws (range | 12) and every permutation of <= 4 shuffled items; rejection-sampling tails beyond the exploration horizon are cut and counted.", "4/C06")
+CHECKS["C07"] = mc("E1-choice-tree",
+  "stateless model checking over the environment with exact probability laws: all word sequences of Grid(lcm(1..n)) explored on the real Tournament/Best/Worst, leaf weights accumulated as rationals and compared with the combinatorial law",
+  "Best/Worst on every population of size 1..6 over 3 values; Tournament(k) for every population of size n<=4 (thorough n<=5, k<=3) over 3 values with ties and every k=1..n: the winner-value law must equal [C(#<=v,k)-C(#<v,k)]/C(n,k) exactly, size-1 tournaments are uniform over positions, size-n tournaments return a maximum.",
+  "Trusted: rand 0.9 samplers as characterised by the calibration run at start-up (exit 2 if it fails); ties are compared on value classes.", "4/C07")
+CHECKS["C08"] = mc("E1-choice-tree",
+  "stateless model checking over the environment on the Rep(12!,K) alphabet (rand's shuffle consumes one number below 12! modulo s!), exact per-individual law against enumeration of all case orders",
+  "Every result matrix for n<=3 individuals x c<=3 cases over 3 values (thorough adds n=4, c=4, n=5 families), both polarities, configured case counts {c, c-1, 0}: the exact selection law must equal the fraction of case orders survived, split evenly among co-survivors; on every leaf the winner is not Pareto-dominated on the considered cases.",
+  "Trusted: the calibrated shuffle characterisation; if the subject stops shuffling with rand the law is recomputed on the generic grid alphabet and only reported from an alphabet whose adequacy argument applies.", "4/C08")
+CHECKS["C09"] = mc("E3-fault-product on real rayon (tier A) + E4 rayon model (tier B when built)",
+  "exhaustive fault/configuration enumeration on the real code with a schedule-independent oracle; schedules of real rayon are sampled by repetition (stated as a cap), exhaustive schedule exploration on an executable rayon model when mc_par builds",
+  "{serial_next, par_next} x population size 0..6 x failure plans {none, every single call, every pair} x rayon pool sizes 1..16, each executed 20 (thorough 200) times with a probe child maker that records the population it was shown and the random word it drew: size preserved, every child made from the unmodified previous population, pairwise distinct words, on error the population is identical (contents and buffer) and the error is an injected one.",
+  "Real-rayon interleavings are not enumerated by tier A (evidence says exhaustive=false for that dimension); two honest 64-bit draws collide with probability < 2^-58.", "4/C09")
+CHECKS["C10"] = mc("E1-choice-tree + E3-bounded-exhaustive",
+  "stateless model checking over the RNG (all grid word sequences) on tagged parents, plus exhaustive enumeration of all index/range arguments of the exchange primitives",
+  "TwoPointXo and UniformXo in 6 flavours x all length pairs 0..5 (thorough 0..8): error iff lengths differ; child gene i comes from a parent's position i; two-point: one contiguous segment and every segment [a,b) including those touching either end occurs over all streams, empty parents give an empty child; uniform: every mask has probability exactly 2^-l. crossover_gene / crossover_segment for all indices and ranges up to length+2 on all length pairs 0..4: in range => exactly the addressed genes swapped, out of range => Err and both genomes unchanged, never a panic.",
+  "Trusted: Grid(l(l+1)) is exact for cut points drawn from 0..l and from 0..=l.", "4/C10")
+CHECKS["C11"] = mc("E1-choice-tree",
+  "stateless model checking over the RNG: all grid word sequences, structural oracle on every leaf",
+  "WithRate / WithOneOverLength on position-tagged bits (Vec, Vector, Bitstring, through Mutate) and Umad (new / new_with_empty_rate / new_without_empty) on tagged Vector, Plushy and Bitstring genomes with a numbering gene generator, parent lengths 0..3 (thorough 0..4), lattice rates incl. 0, 1 and 2: positions preserved, survivors in order, at most one insertion per parent position, provenance of new genes, all boundary-rate identities.",
+  "Structure is rate independent; the lattice reaches both outcomes of every coin.", "4/C11")
+CHECKS["C12"] = mc("E1-choice-tree",
+  "stateless model checking over the RNG with exact probability laws (rationals) on lattice rates",
+  "WithRate/WithOneOverLength flip-mask laws, Umad output-genome laws (lengths 0,1,2; expected size l(1-d)(1+a); empty-parent rate), Bitstring::random / random_with_probability / BoolGenerator product laws, GeneGenerator close probability (explicit and 1/(n+1)) and uniform instruction choice for n=1..5, on rates {0,1/4,1/3,1/2,3/4,1}; every law compared exactly.",
+  "Rates off the 1/12 lattice and sub-2^-24 rounding are outside the explored space.", "4/C12")
+CHECKS["C13"] = mc("E1-choice-tree + E3",
+  "stateless model checking over the RNG with exact laws on marker selectors; exhaustive u32-boundary weight vectors for the builders",
+  "12 construction shapes of WeightedPair (left chains incl. Result-chained, right chains, balanced, mixed) and DynWeighted lists x every weight vector over 0..3 (thorough 0..4) within an execution budget: member law exactly w_i/sum, zero-weight members unreachable, all-zero => zero-weight error; weight vectors over {0,1,u32::MAX-1,u32::MAX} build iff the total fits in u32.",
+  "Weight vectors whose lcm of node sums makes the tree exceed the budget are skipped and counted.", "4/C13")
+CHECKS["C14"] = mc("E3-bounded-exhaustive x fault plans",
+  "bounded-exhaustive enumeration of composition trees x fault plans (deviation bound 2) on the real combinators through the erased layer, differential against the CompRef interpreter",
+  "All composition trees up to depth 2 (thorough: plus a stride of depth 3) over {probe, Identity, then, and, map over [T;2]/(T,T)/Vec, then_map, apply_n_times 0..3}; failure plans none / every single probe call / every pair: output value, error path, probe log (order, inputs, words drawn) and final tape position must equal CompRef's; Identity, Constant, GenomeExtractor, GenomeScorer, Mutate/Recombine wrappers add nothing.",
+  "Error paths are compared through the derived Debug of ThenError/AndError/MapError.", "4/C14")
+CHECKS["C15"] = mc("E3-bounded-exhaustive",
+  "small-scope exhaustive algebra: all pairs/triples over a boundary value domain, all short result vectors",
+  "All pairs and triples over {i64::MIN,-2,-1,0,1,2,i64::MAX} for Score/Error/TestResult (all six operators, cmp, partial_cmp, max/min, transitivity, antisymmetry, score-vs-error incomparability), all result vectors of length 0..3 over -2..2 plus extremes through both constructors and polarities, all pairs of those for TestResults/EcIndividual, and 5 scorers x 3 genome sources for IndividualGenerator/with_scorer/GenomeScorer.",
+  "Value types with unlawful Ord are outside the property.", "4/C15")
+CHECKS["C16"] = mc("E1-choice-tree (replay obligation)",
+  "stateless model checking: every explored leaf of every scenario is replayed from its recorded choice sequence and must reproduce observation and draw trace; process-level digest comparison; all input declaration orders",
+  "~500 (thorough ~900) scenarios taken from the selector, weighted, crossover, mutation and generator checks: each leaf replayed twice; scenarios whose specification is random must show >= 2 outcomes over the supplied generator's streams; history independence on shared operator values; observation digests equal across three processes; Push programs over 4 inputs under all 24 declaration orders end in equal states.",
+  "'All seeds' is covered as all word sequences of the scenario's alphabet, capped at 20,000 leaves per scenario (reported).", "4/C16")
+CHECKS["C17"] = mc("E3 x E1 (own harness crate) + rustc compile probe fallback",
+  "exhaustive enumeration of all 140 generated wrapper types x implementations x arguments x grid word sequences, leaf-by-leaf replay of the concrete operator against the erased form",
+  "5 erasable traits x 7 pointer types x {-, Send, Sync, Send+Sync} x 3 wrapped implementations (no draws / data-dependent draws / failing): identical result (pointer / genome / value), identical error text, identical draw trace. If a flavour stops implementing its trait the C17 crate no longer builds and scripts/c17_probe.py identifies the missing flavours with one cargo check.",
+  "Trusted: rustc for the fallback probe.", "4/C17")
+CHECKS["C18"] = mc("E1-choice-tree",
+  "stateless model checking over the RNG with exact laws",
+  "All 16 conversion flavours (Vec/&Vec/array/&array/slice, into/to, OneOfCloning/Choose/ChooseCloning, constructors, uniform_distribution_of!) x source sizes 0..5 (6) x all 60 grid words: empty source rejected at construction, num_choices == len, each member exactly 1/len (borrowing flavours: a reference into the source); collection generators for Vec, Bitstring, Plushy and scored populations produce exactly size elements in generation order.",
+  "Trusted: calibrated Uniform / slice::Choose.", "4/C18")
+CHECKS["C19"] = mc("E5 type-state BFS + rustc, E3 run-time content (scripts/c19.py)",
+  "explicit-state BFS over the builder type-state automaton (model) with every transition replayed against the implementation as judged by rustc (conformance), plus compiled execution of every complete call order up to a bound against the model",
+  "213 abstract states x all methods for three structs (PushState; one-stack struct with renamed methods and custom input instruction; four-stack struct without inputs/limit, via the cfg-guarded hook module): must-accept transitions compile and land in the predicted type-state (read from rustc's diagnostic), must-reject transitions (build on incomplete builders, size change after values) fail at the offending call; ~1000 (thorough ~7000) complete call orders compiled and run: contents, top element, last size set, program order, inputs, overflow errors, accessor/field identity.",
+  "Trusted: rustc diagnostics; transitions the property is silent about are recorded, not judged. Hook: push::verif_states (add-only, cfg-guarded).", "4/C19")
+
 PLANNED = {}
 
 def main():
@@ -69,7 +129,8 @@ def main():
         "engines": [
             {"name": "E1-choice-tree", "path": "mc/mcx/src/env.rs", "serves_properties": ["C06","C07","C08","C10","C11","C12","C13","C16","C17","C18"], "kind_free_text": "stateless DFS over all answers of the environment (RNG words from a finite exact alphabet, faults) by re-execution of the real code; exact rational laws"},
             {"name": "E2-stateright", "path": "mc/checks/src", "serves_properties": ["C01","C02","C04","C19"], "kind_free_text": "explicit-state BFS over real objects (stateright 0.31) with per-transition reference comparison"},
-            {"name": "E3-bounded-exhaustive", "path": "mc/checks/src", "serves_properties": ["C01","C03","C05","C14","C15"], "kind_free_text": "complete enumeration of structured inputs up to a size bound, differential against independent reference models"},
+            {"name": "E3-bounded-exhaustive", "path": "mc/checks/src", "serves_properties": ["C01","C03","C05","C09","C14","C15"], "kind_free_text": "complete enumeration of structured inputs / fault plans up to a size bound, differential against independent reference models"},
+            {"name": "E5-typestate", "path": "scripts/c19.py", "serves_properties": ["C19"], "kind_free_text": "BFS over the builder type-state model, each transition judged by rustc on generated code; complete call orders compiled and run"},
         ],
         "checks": checks,
         "not_applicable": na,
@@ -78,6 +139,6 @@ def main():
     json.dump(m, open(os.path.join(ROOT, "MANIFEST.json"), "w"), indent=1)
     print("MANIFEST.json:", len(checks), "checks,", len(na), "not claimed")
 
-HOOK_COMMITS = []
+HOOK_COMMITS = ["f2993a1"]
 if __name__ == "__main__":
     main()
